@@ -195,9 +195,23 @@ Qed.
 Lemma py_int_utype t : py_int (hexw 4 (utype_num t)) = Val (utype_num t).
 Proof. destruct t; reflexivity. Qed.
 
-Lemma unix_line_ok fam lk filt u :
-  wf_usock u = true -> path_lead_ws u = false ->
-  unix_line fam lk filt (k_uline u) = Val (ref_unix_rows fam lk filt u).
+Lemma after_space_tok t r : contains 32 t = false -> after_space (t ++ 32 :: r) = r.
+Proof.
+  induction t as [|c t IH]; intros H.
+  - cbn [app after_space]. now rewrite Z.eqb_refl.
+  - rewrite contains_cons in H. apply orb_false_iff in H as [Hc Ht].
+    cbn [app after_space]. rewrite Z.eqb_sym, Hc. now apply IH.
+Qed.
+Lemma after_space_none t : contains 32 t = false -> after_space t = [].
+Proof.
+  induction t as [|c t IH]; intros H; [reflexivity|].
+  rewrite contains_cons in H. apply orb_false_iff in H as [Hc Ht].
+  cbn [after_space]. rewrite Z.eqb_sym, Hc. now apply IH.
+Qed.
+
+Lemma unix_line_ok v fam lk filt u :
+  wf_usock u = true -> v_exact v = true \/ path_lead_ws u = false ->
+  unix_line v fam lk filt (k_uline u) = Val (ref_unix_rows fam lk filt u).
 Proof.
   intros Hwf Hlead. pose proof (six_ok u Hwf) as Hsix.
   apply wf_usock_parts in Hwf as (H1 & H2 & H3 & H4 & H5 & Hino & Hnl).
@@ -214,10 +228,22 @@ Proof.
   destruct Htl as (s & r & Etl & Hs & Hr). rewrite Etl.
   rewrite split_ws_token_sep by assumption.
   (* the path *)
-  assert (Hpath : (if (8 <=? length (six u ++ u_inode u :: split_ws r))%nat
+  assert (Hpath : (if v_exact v
+                   then rstrip_nl (after_space (rest_after 6 (k_seq (u_pad u) 0 (six u) (u_inode u ++ s :: r))))
+                   else if (8 <=? length (six u ++ u_inode u :: split_ws r))%nat
                    then rstrip_nl (rest_after 7 (k_seq (u_pad u) 0 (six u) (u_inode u ++ s :: r))) else [])
                   = path_of u).
-  { destruct Hr as [[-> Hp]| ->].
+  { destruct (v_exact v) eqn:Ex.
+    { (* repaired extraction: everything after the single blank that follows the inode *)
+      change 6%nat with (length (six u) + 0)%nat. rewrite rest_after_k_seq by exact Hsix.
+      cbn [rest_after]. rewrite lstrip_tok by (apply tok_ok_spec; auto).
+      assert (H32 : contains 32 (u_inode u) = false) by (apply no_ws_contains; [reflexivity|exact Hnw]).
+      unfold uline_tail, path_of in *. destruct (u_path u) as [p|].
+      - inversion Etl; subst s r. rewrite after_space_tok by exact H32. now apply rstrip_nl_snoc.
+      - inversion Etl; subst s r. rewrite after_space_none; [reflexivity|].
+        rewrite contains_app, H32. reflexivity. }
+    destruct Hlead as [Hlead|Hlead]; [congruence|].
+    destruct Hr as [[-> Hp]| ->].
     - cbn. now rewrite Hp.
     - destruct (path_of u) as [|c p'] eqn:Ep.
       + cbn. reflexivity.
@@ -244,15 +270,20 @@ Proof.
   f_equal. apply map_ext. intros pf. f_equal. f_equal. exact Hpath.
 Qed.
 
-Lemma unix_lines_ok fam lk filt socks :
-  forallb wf_usock socks = true -> forallb (fun u => negb (path_lead_ws u)) socks = true ->
-  unix_lines fam lk filt (map k_uline socks) = Val (flat_map (ref_unix_rows fam lk filt) socks).
+Lemma unix_lines_ok v fam lk filt socks :
+  forallb wf_usock socks = true ->
+  v_exact v = true \/ forallb (fun u => negb (path_lead_ws u)) socks = true ->
+  unix_lines v fam lk filt (map k_uline socks) = Val (flat_map (ref_unix_rows fam lk filt) socks).
 Proof.
   induction socks as [|u r IH]; intros Hwf Hl; [reflexivity|].
-  cbn [forallb] in Hwf, Hl. apply andb_true_iff in Hwf as [Hu Hr]. apply andb_true_iff in Hl as [Hlu Hlr].
-  apply negb_true_iff in Hlu.
-  cbn [map unix_lines flat_map]. rewrite unix_line_ok by assumption. cbn [obind].
-  rewrite IH by assumption. reflexivity.
+  cbn [forallb] in Hwf. apply andb_true_iff in Hwf as [Hu Hr].
+  cbn [map unix_lines flat_map]. rewrite unix_line_ok.
+  - cbn [obind]. rewrite IH; [reflexivity|exact Hr|].
+    destruct Hl as [Hl|Hl]; [now left|right].
+    cbn [forallb] in Hl. now apply andb_true_iff in Hl as [_ Hl].
+  - exact Hu.
+  - destruct Hl as [Hl|Hl]; [now left|right].
+    cbn [forallb] in Hl. apply andb_true_iff in Hl as [Hl _]. now apply negb_true_iff in Hl.
 Qed.
 
 Definition uline_body (u : usock) : bytes :=
@@ -273,10 +304,11 @@ Proof.
     destruct (u_path u); [|reflexivity]. rewrite contains_cons, Hnl. reflexivity.
 Qed.
 
-Lemma process_unix_ok fam lk filt socks :
-  forallb wf_usock socks = true -> forallb (fun u => negb (path_lead_ws u)) socks = true ->
+Lemma process_unix_ok v fam lk filt socks :
+  forallb wf_usock socks = true ->
+  v_exact v = true \/ forallb (fun u => negb (path_lead_ws u)) socks = true ->
   text_safe (k_ufile socks) = true ->
-  process_unix (Some (k_ufile socks)) fam lk filt = Val (flat_map (ref_unix_rows fam lk filt) socks).
+  process_unix v (Some (k_ufile socks)) fam lk filt = Val (flat_map (ref_unix_rows fam lk filt) socks).
 Proof.
   intros Hwf Hl Hsafe. unfold process_unix. rewrite Hsafe.
   unfold k_ufile. rewrite lines_keep_line by reflexivity.
